@@ -379,6 +379,15 @@ def witness_search(tier, seed):
                 b = Beat(x)
                 if b.denominator not in (1, 2, 3, 4, 6, 8, 12, 16, 24, 48) or abs(b - q) > Fraction(1, 96):
                     return dict(input=f"Beat({x!r})", detail=f"got {b!r}: not the nearest multiple of 1/48")
+    # how the timing strings of a simfile reach the engine: the standard key wins over its legacy alias
+    from simfile.sm import SMSimfile
+    from simfile.timing import TimingData, BeatValues
+    for text in ("#OFFSET:0.25;#BPMS:0=120,4=60.5;#STOPS:1=0.5;#FREEZES:2=9;", "#BPMS:0=120;#FREEZES:2=9;", "#BPMS:0=120;#STOPS:;#FREEZES:2=9;", "#BPMS:0=120;#DELAYS:3=0.125;#WARPS:4=1.333;"):
+        sm_ = SMSimfile(string=text)
+        td = TimingData(sm_)
+        want_stops = BeatValues.from_str(sm_["STOPS"] if "STOPS" in sm_ else sm_.get("FREEZES"))
+        if td.stops != want_stops or td.bpms != BeatValues.from_str(sm_["BPMS"]) or td.delays != BeatValues.from_str(sm_.get("DELAYS")) or td.warps != BeatValues.from_str(sm_.get("WARPS")):
+            return dict(input=text, detail=f"TimingData read stops={td.stops!r} delays={td.delays!r} warps={td.warps!r}; the strings say stops={want_stops!r}")
     for x in (3, Fraction(7, 5), Beat(1, 7)):
         if Beat(x) != x or Beat(22, 7) != Fraction(22, 7):
             return dict(input=f"Beat({x!r})", detail="not exact")
@@ -440,3 +449,8 @@ THOROUGH_BOUNDED = _thorough_bounded()
 
 from pyvc.xcheck import StringAxiomProbe   # noqa: E402
 THOROUGH_BOUNDED = THOROUGH_BOUNDED + [StringAxiomProbe()]
+
+
+# supplier units (see props/suppliers.py): "this is also how the BPMS, STOPS ... strings of a simfile reach the timing engine"
+from props import suppliers as _S   # noqa: E402
+UNITS = _S.extend(UNITS, _S.timing_readers(), [u for u in _S.accessors(("SMSimfile", "SSCSimfile", "SSCChart")) if u.name.endswith(".getter")])
